@@ -861,6 +861,9 @@ def polyline_method(eng, callee, a, m, fc):
             raise Panic('Polyline::segment index out of bounds')
         return Struct('Segment', [clone_val(pl[0].items[i]), clone_val(pl[0].items[i + 1])])
     if name == 'indices':
+        if isinstance(pl[1], En) and pl[1].v == 'Some':
+            stored = unref(pl[1].f[0])
+            return Ref(lambda: stored)
         n = len(pl[0].items)
         s = VecV([[i, i + 1] for i in range(n - 1)])
         return Ref(lambda: s)
